@@ -112,6 +112,7 @@ def opDhar (j : Json) : M Json := do
           ("orient", jDir G st),
           ("indeg", jVec (st.indeg G)), ("outdeg", jVec (st.outdeg G)),
           ("after_fire", jVec fired),
+          ("direct_unburnt", jSet ub), ("direct_after", jVec s.D),
           ("superstable", Json.bool (isSuperstable G q s.D)),
           ("argtotal", jInt (sumZ deg)), ("graph", jGraph G)]
 
@@ -231,5 +232,23 @@ def opWinnableHist (j : Json) : M Json := do
       g := gapply g (.add a b k)
       outs := outs.push (verdicts g)
     pure (Json.mkObj [("verdicts", Json.arr outs), ("graph", jGraph g)])
+
+def opDharBatch (j : Json) : M Json := do
+  let n ← getNat j "n"
+  let mut outs : Array Json := #[]
+  for qd in getArrD j "queries" do
+    let es ← (match (qd.getObjVal? "edges").toOption with
+      | some (Json.arr a) => edgesOf a
+      | _ => do edgesOf (← getArr j "edges"))
+    match Graph.new n false es with
+    | .error _ => outs := outs.push err
+    | .ok G =>
+      let base ← vecOf n (← getInts qd "base")
+      match ref? n (← getNat qd "q") with
+      | none => outs := outs.push err
+      | some q =>
+        let sts ← (← getArr qd "strategies").toList.mapM fun s => do asNats (← s.getArr?)
+        outs := outs.push (Json.arr (sts.map fun st => jOptB (dharTestStrategy G bigFuel q base (st.filterMap (ref? n)))).toArray)
+  pure (Json.mkObj [("answers", Json.arr outs)])
 
 end Drv
